@@ -180,6 +180,8 @@ impl fmt::Display for ObjUpvalueState {
 pub struct ObjUpvalue {
     data: ObjUpvalueState,
     pub(crate) next: Option<Gc<RefCell<ObjUpvalue>>>,
+    /// While open, the fiber whose stack holds the variable: it must outlive the upvalue.
+    owner: Option<Gc<RefCell<ObjFiber>>>,
 }
 
 impl ObjUpvalue {
@@ -187,6 +189,15 @@ impl ObjUpvalue {
         ObjUpvalue {
             data: ObjUpvalueState::Open(address),
             next: None,
+            owner: None,
+        }
+    }
+
+    pub(crate) fn new_in_fiber(address: *mut Value, owner: Gc<RefCell<ObjFiber>>) -> Self {
+        ObjUpvalue {
+            data: ObjUpvalueState::Open(address),
+            next: None,
+            owner: Some(owner),
         }
     }
 
@@ -233,6 +244,7 @@ impl ObjUpvalue {
     pub fn close(&mut self) {
         let value = self.get();
         self.data = ObjUpvalueState::Closed(value);
+        self.owner = None;
     }
 }
 
@@ -240,7 +252,11 @@ impl GcManaged for ObjUpvalue {
     fn mark(&self) {
         match self.data {
             ObjUpvalueState::Closed(value) => value.mark(),
-            ObjUpvalueState::Open(_) => {}
+            ObjUpvalueState::Open(_) => {
+                if let Some(owner) = self.owner.as_ref() {
+                    owner.mark();
+                }
+            }
         }
         if let Some(u) = self.next.as_ref() {
             u.mark();
@@ -250,7 +266,11 @@ impl GcManaged for ObjUpvalue {
     fn blacken(&self) {
         match self.data {
             ObjUpvalueState::Closed(value) => value.blacken(),
-            ObjUpvalueState::Open(_) => {}
+            ObjUpvalueState::Open(_) => {
+                if let Some(owner) = self.owner.as_ref() {
+                    owner.blacken();
+                }
+            }
         }
         if let Some(u) = self.next.as_ref() {
             u.blacken();
